@@ -2,8 +2,8 @@
    Only ExtrOcamlBasic's directives are used (bool, option, list, prod, unit, sumbool
    mapped to OCaml's own types); N, Z, positive and nat stay extracted inductives. *)
 From Coq Require Import ExtrOcamlBasic.
-From VL Require Import Base Json Schema Wire WireSet Service Script Client PoolExpr Pool PoolSrc Listen Idl Format Gen Codec Cert.
-From VLG Require Import WireGen SetGen PoolGen.
+From VL Require Import Base Json Schema Wire WireSet Service Script Client PoolExpr Pool PoolSrc Listen Idl Format Gen Codec Cert CertSrc.
+From VLG Require Import WireGen SetGen PoolGen CertGen.
 Extraction Language OCaml.
 Separate Extraction
   Base.beq_bytes Json.parse_value Json.parse_doc Json.print Json.norm
@@ -23,4 +23,4 @@ Separate Extraction
   Idl.try_from Idl.interface_name Format.format_src Json.utf8_enc
   Gen.emitted Gen.generator_panics Gen.emitted_fn_names Gen.emitted_type_names Gen.known_classes Gen.typedefs_of Gen.methods_of Gen.errors_of
   Codec.enc Codec.enc_top Codec.dec_top Codec.dec_fuel Codec.wire_method
-  Cert.matches Cert.read_params Cert.mode_ok Cert.mode_of.
+  Cert.matches Cert.read_params Cert.mode_ok Cert.mode_of CertSrc.src_cert_call.
